@@ -43,7 +43,7 @@ func fullBody(supi string, kind string, isn int) map[string]interface{} {
 			},
 		},
 		"pDUSessionChargingInformation": map[string]interface{}{
-			"chargingId": 77,
+			"chargingId":      77,
 			"userInformation": map[string]interface{}{"servedGPSI": "msisdn-0900000000"},
 			"pduSessionInformation": map[string]interface{}{
 				"pduSessionID": 1, "dnnId": "internet", "pduType": "IPV4",
@@ -387,12 +387,37 @@ func GenC10(seed uint64) *Scenario {
 	g.sc.Cfg.YieldMaxNs = []int64{1000, 50_000, 2_000_000}[g.r.Intn(3)]
 	nTasks := 2 + g.r.Intn(6)
 	window := []int64{0, 1000, 100_000, 5_000_000}[g.r.Intn(4)]
+	// identifier pairs whose concatenation coincides: only the counter keeps their references apart
+	families := [][][2]string{
+		{{"imsi-1", "23"}, {"imsi-12", "3"}, {"imsi-123", ""}},
+		{{"imsi-2", "1x"}, {"imsi-21", "x"}},
+		{{"imsi-208930000000001", "1smf"}, {"imsi-2089300000000011", "smf"}},
+		{{"imsi-20893000000000", "10"}, {"imsi-208930000000001", "0"}},
+	}
+	var fam [][2]string
+	if g.r.Chance(600) {
+		fam = families[g.r.Intn(len(families))]
+		have := map[string]bool{}
+		for _, a := range g.sc.Accounts {
+			have[a.Supi] = true
+		}
+		for _, p := range fam {
+			if !have[p[0]] {
+				g.sc.Accounts = append(g.sc.Accounts, Account{Supi: p[0], RG: 1, Quota: 2_000_000_000, UnitCost: "1"})
+			}
+		}
+	}
 	for t := 0; t < nTasks; t++ {
 		supi := supis[t%len(supis)]
 		var ops []Op
 		for k := 0; k < 1+g.r.Intn(3); k++ {
 			name := fmt.Sprintf("t%dk%d", t, k)
-			ops = append(ops, Op{ID: g.id(), Kind: "create", Supi: supi, Sess: name, Consumer: c10Names[g.r.Intn(len(c10Names))], ChargingID: int32(t*10 + k)})
+			consumer := c10Names[g.r.Intn(len(c10Names))]
+			if fam != nil {
+				p := fam[(t+k)%len(fam)]
+				supi, consumer = p[0], p[1]
+			}
+			ops = append(ops, Op{ID: g.id(), Kind: "create", Supi: supi, Sess: name, Consumer: consumer, ChargingID: int32(t*10 + k)})
 			if g.r.Chance(500) {
 				ops = append(ops, Op{ID: g.id(), Kind: "update", Supi: supi, Sess: name, Units: []Unit{{RG: 1, Req: 10, Containers: []Container{g.offline()}}}})
 			}
@@ -427,10 +452,22 @@ func GenC18(seed uint64) *Scenario {
 		g.sc.Accounts = append(g.sc.Accounts, Account{Supi: supiN(s), RG: 1, Quota: 3_000_000_000, UnitCost: "1"})
 		ops = append(ops, Op{ID: g.id(), Kind: "create", Supi: supiN(s), Sess: fmt.Sprintf("s%d", s), Consumer: "smf", ChargingID: int32(s)})
 	}
+	silent := []int{0, 0, 30, 100}[g.r.Intn(4)] // permille of updates that name a rating group nobody provisioned: both peers stay silent
+	lossy := []int{0, 0, 20}[g.r.Intn(3)]       // permille of updates whose first credit answer is lost
+	g.sc.Shape += fmt.Sprintf(" silent=%d lossy=%d", silent, lossy)
 	for i := 0; i < n; i++ {
 		s := 1 + g.r.Intn(nSub)
-		ops = append(ops, Op{ID: g.id(), Kind: "update", Supi: supiN(s), Sess: fmt.Sprintf("s%d", s),
-			Units: []Unit{{RG: 1, Req: int32(100 + g.r.Intn(100)), Containers: []Container{g.online(1000)}}}})
+		rg := int32(1)
+		if g.r.Chance(silent) {
+			rg = 9
+		}
+		op := Op{ID: g.id(), Kind: "update", Supi: supiN(s), Sess: fmt.Sprintf("s%d", s),
+			Units: []Unit{{RG: rg, Req: int32(100 + g.r.Intn(100)), Containers: []Container{g.online(1000)}}}}
+		if rg == 1 && g.r.Chance(lossy) {
+			g.sc.Faults = append(g.sc.Faults, simnet.Fault{Peer: []string{"rf", "abmf"}[g.r.Intn(2)], Task: 0, Op: op.ID, Dir: "ans",
+				Cmd: 0, Nth: 1, Kind: []string{simnet.KDrop, simnet.KStall, simnet.KWithhold}[g.r.Intn(3)], DelayNs: 1_000_000})
+		}
+		ops = append(ops, op)
 		if g.r.Chance(50) {
 			ops = append(ops, Op{ID: g.id(), Kind: "sleep", SleepNs: g.r.Range(1, 20) * 1_000_000_000})
 		}
@@ -578,6 +615,10 @@ func GenC09(seed uint64) *Scenario {
 	if pattern >= 2 {
 		nSub = 1 + g.r.Intn(3)
 	}
+	newSupiSpread := g.r.Intn(2) // pattern 1: 0 = every task creates for the same new SUPI, 1 = three new SUPIs
+	if pattern == 1 && newSupiSpread == 1 {
+		nSub = 3
+	}
 	for s := 1; s <= nSub; s++ {
 		for rg := int32(1); rg <= 2; rg++ {
 			g.sc.Accounts = append(g.sc.Accounts, Account{Supi: supiN(s), RG: rg, Quota: g.r.Range(100_000, 50_000_000), UnitCost: g.pickCost()})
@@ -604,12 +645,13 @@ func GenC09(seed uint64) *Scenario {
 		nOps := 1 + g.r.Intn(3)
 		for k := 0; k < nOps; k++ {
 			switch pattern {
-			case 1: // creates for the same not-yet-known SUPI, then use of the session
+			case 1: // creates for not-yet-known SUPIs (the same one, or several), then use of the session
 				name := fmt.Sprintf("n%d_%d", t, k)
-				ops = append(ops, Op{ID: g.id(), Kind: "create", Supi: supiN(1), Sess: name, Consumer: fmt.Sprintf("smf%d", t), ChargingID: int32(t),
-					NotifyURI: "http://smf.sim/notify/" + supiN(1)})
+				cs := supiN(1 + (t*newSupiSpread)%3)
+				ops = append(ops, Op{ID: g.id(), Kind: "create", Supi: cs, Sess: name, Consumer: fmt.Sprintf("smf%d", t), ChargingID: int32(t),
+					NotifyURI: "http://smf.sim/notify/" + cs})
 				if g.r.Chance(600) {
-					ops = append(ops, Op{ID: g.id(), Kind: "update", Supi: supiN(1), Sess: name,
+					ops = append(ops, Op{ID: g.id(), Kind: "update", Supi: cs, Sess: name,
 						Units: []Unit{{RG: 1, Req: 100, Containers: []Container{g.online(0), g.offline()}}}})
 				}
 			default:
@@ -653,11 +695,16 @@ func GenC09(seed uint64) *Scenario {
 			}
 		}
 	}
+	keepRacers := g.r.Chance(500)
 	for ti := range g.sc.Tasks {
 		var keep []Op
 		for _, o := range g.sc.Tasks[ti].Ops {
 			if rt, ok := relAt[o.Sess]; ok && (o.Kind == "update" || o.Kind == "release") && rt != ti {
-				continue
+				if !keepRacers {
+					continue
+				}
+				o.Role = "may-reject" // races with the release of its session: 200 and 404 are both fine
+				o.Final = false
 			}
 			keep = append(keep, o)
 		}
